@@ -8,7 +8,9 @@ ops
          cfg  = [progress, transient, overflow(0 crop,1 ellipsis,2 visible), W, H, [k]?, [k]?, kind, base]
                 base 1: the injected exception is a KeyboardInterrupt (not an Exception subclass)
                 kind 0 Live, 1 Progress, 2 Status; the two options are fault indices (render / build)
-         mode = 0 free-form history, 1 `with display:` block (pre = lines printed before it)
+         mode = 0 free-form history up to the first exception, 1 `with display:` block (pre = lines printed
+                before it), 2 free-form where the caller catches every exception and goes on (sessions after
+                a faulted stop())
          ops  = [0,lines] print | [1,lines] log | [2] print(raising) | [3,frame,refresh] update |
                 [4] refresh | [5] start | [6] stop |
                 Progress only: [7,lines,newframe] add_task | [8,i,newframe] remove_task |
@@ -115,7 +117,9 @@ def gen_history(rng, kind, mode, faulty, maxops=40):
             return [4]
         if r < 0.88:
             return [5]     # start while started: no-op
-        if kind == 1:
+        # (not when the caller goes on after an exception: add_task() whose refresh raises has stored the
+        #  task but neither returned nor advanced the id -- the harness could not address it afterwards)
+        if kind == 1 and mode != 2:
             k = rng.random()
             if k < 0.4 and len(tasks) < 4:
                 room = cap - len(frame_now())
@@ -176,6 +180,29 @@ def gen_history(rng, kind, mode, faulty, maxops=40):
     if mode == 1:
         pre = [rframe(rng, rng.choice([1, 2]), W) for _ in range(rng.choice([0, 1, 3, H]))]
         ops = body_ops(n)
+    elif mode == 2:
+        # session; stop (which may be the faulted call); the same display again with a tall frame;
+        # nothing is printed between a stop() and the next start(): a faulted stop leaves its frame
+        # on the screen without a final new line
+        for _ in range(rng.choice([0, 1, 2])):
+            ops.append([0, rframe(rng, rng.choice([1, 2]), W)])
+        ops.append([5])
+        ops += body_ops(rng.choice([0, 1, 3, 6]))
+        for _ in range(rng.choice([1, 1, 2])):
+            ops.append([6])
+            if rng.random() < 0.3:
+                ops.append([6])
+            ops.append([5])
+            tall = rframe(rng, max(0, min(cap, H + rng.choice([0, 1, 3]))), lw)
+            if kind == 1:
+                base[:] = tall
+                for t in tasks:
+                    t[1] = 0
+            ops.append([3, tall, 1])
+            cur_frame[0] = tall
+            ops += body_ops(rng.choice([1, 2, 5]))
+        if rng.random() < 0.8:
+            ops.append([6])
     else:
         for _ in range(rng.choice([0, 0, 1, 3, H + 1])):   # before start: plain prints, silent updates
             ops.append(rng.choice([[0, rframe(rng, rng.choice([1, 2]), W)], [4]]))
@@ -316,6 +343,16 @@ def generate(rng, tier):
                 # both kinds: an Exception subclass and a BaseException-only one (KeyboardInterrupt)
                 cases.append(("run", with_fault(base, which, j, 0)))
                 cases.append(("run", with_fault(base, which, j, 1)))
+    # the caller catches the exception and goes on: the same display started again after a stop() that
+    # may have raised, with a tall frame (seed C10-r3m3); a fault at EVERY index
+    for _ in range(8 * k):
+        kind = rng.choice([0, 0, 1, 2])
+        base = gen_history(rng, kind, 2, True, maxops=14)
+        cases.append(("run", base))
+        nr = count_calls(base)
+        for which, n in (("render", nr[0]), ("build", nr[1] if kind == 1 else 0)):
+            for j in range(n + 1):
+                cases.append(("run", with_fault(base, which, j, j % 2)))
     return cases
 
 
@@ -573,7 +610,7 @@ def impl_run(arg):
             raise KeyError(k)
 
     try:
-        if mode == 0:
+        if mode in (0, 2):
             for o in ops:
                 try:
                     do(o)
@@ -581,7 +618,7 @@ def impl_run(arg):
                     raised = True
                 offsets.append(len(buf.getvalue()))
                 observe()
-                if raised:
+                if raised and mode == 0:
                     break
         else:
             for ls in pre:
@@ -631,7 +668,7 @@ def spec_cases(op, arg, out):
         H = cfg[4]
         specs = [("spec.view_ok", [marg, bytes_]),
                  ("spec.cursor_vis_ok", [H, started, bytes_])]
-        if mode == 0:
+        if mode in (0, 2):
             specs.append(("spec.cursor_ok", [marg, bytes_, offsets]))
             specs.append(("spec.redirect_ok", obs))
         if mode == 1 or not started:
